@@ -406,6 +406,73 @@ def check_release_ownership(ck, P, rid):
                 ck.violated(rid, inst, c.where, why, cfgname)
 
 
+def _ancestors(n):
+    q = n.parent
+    while q is not None:
+        yield q
+        q = q.parent
+
+
+def check_foreign_entries_untouched(ck, P, rid):
+    """A history entry tagged local-sent points to a message that belongs to its RECEIVER (who may already have released it when the
+    sender's history is dropped).  fossil_lp_collect and process_lp_fini may read or write through an entry only on paths where the
+    local-sent tag was tested and found clear."""
+    cfgname = P.config
+    n = 0
+    for fname in ("fossil_lp_collect", "process_lp_fini"):
+        f = P.fn(fname)
+        inst = "foreign-untouched@%s" % fname
+        # accesses through a history entry: msg->field and atomics on &msg->field, where msg was loaded from p_msgs
+        # entries loaded per iteration of a loop over the whole history (the commit scan of fossil_lp_collect starts at the newest
+        # entry, which is a processed event by the history discipline C01.3, and then only moves to entries tested is_msg_past)
+        ents = set()
+        for v in f.walk():
+            if v.k == "VarDecl" and v.children and "p_msgs" in X.show(v.children[-1]):
+                q = v.parent
+                in_body = False
+                while q is not None:
+                    if q.k == "CompoundStmt" and q.parent is not None and q.parent.k in ("ForStmt", "WhileStmt", "DoStmt"):
+                        in_body = True
+                    q = q.parent
+                if in_body:
+                    ents.add(v.did)
+        acc = []
+        for x in f.walk():
+            if x.k == "MemberExpr" and x.arrow and x.rec == "lp_msg":
+                b = X.strip(x.children[0])
+                if b.k == "DeclRefExpr" and b.did in ents:
+                    acc.append(x)
+        bad = None
+        seen = 0
+        for x in acc:
+            # the scan loop of fossil_lp_collect reads dest_t of *processed* entries only after is_msg_past: handled by the same test
+            tgt = x
+            while tgt is not None and tgt.id not in f.cfg.pos:
+                tgt = tgt.parent
+            if tgt is None:
+                continue
+            seen += 1
+            paths, complete = Q.path_conditions(f, tgt)
+            for conds in paths:
+                excluded = False
+                for core, truth in conds:
+                    if _tag_test(core, 1) is not None and truth is False:
+                        excluded = True
+                    if _tag_test(core, 3) is not None and truth is False:
+                        excluded = True
+                if not excluded and bad is None:
+                    bad = x
+        n += seen
+        if bad is not None:
+            ck.violated(rid, inst, bad.where, "%s accesses `%s->%s` of a history entry on a path that has not excluded locally sent messages: such a message belongs to its receiver, which may have "
+                        "released it already (a large payload is then freed memory)" % (fname, X.show(X.strip(bad.children[0])), bad.name or next((q.name for q in _ancestors(bad) if q.k == "MemberExpr" and q.name), "?")), cfgname)
+        elif seen:
+            ck.holds(rid, inst, f.where, "all %d access(es) through a history entry are on paths where the local-sent tag is clear" % seen, cfgname)
+        else:
+            ck.holds(rid, inst, f.where, "no field of a history entry is accessed while the history is dropped (entries are only handed to the release call)", cfgname)
+    ck.expect(rid, n, 1, "accesses through history entries in the two dropping functions")
+
+
 def _is_remote_flag(f, ref):
     """Is variable `ref` defined as the remote tag test of a history entry (bool remote = is_msg_remote(msg))?"""
     for n in f.walk():
